@@ -306,6 +306,26 @@ func genericRelation() error {
 			return fmt.Errorf("Exchange (builder call order %d).Add(entity, target) differs from Relations.Exchange", order)
 		}
 	}
+	// batch forms of Exchange without a target argument: the documented equivalent is Batch.Exchange — entities that
+	// keep the relation component keep their targets, and removing the relation component is legal
+	{
+		exKeep := generic.NewExchange(&gg.w).Adds(generic.T[GY]()).WithRelation(generic.T[GRel]())
+		fg := ecs.All(gg.rel, gg.ids[0])
+		fc := ecs.All(gc.rel, gc.ids[0])
+		ng := exKeep.ExchangeBatch(fg)
+		nc := gc.w.Batch().Exchange(fc, []ecs.ID{gc.y}, nil)
+		if ng != nc || gdump(gg) != gdump(gc) {
+			return fmt.Errorf("Exchange.WithRelation(Rel).Adds(Y).ExchangeBatch(filter) without a target differs from Batch.Exchange (counts %d / %d): the entities keep the relation component and must keep their targets", ng, nc)
+		}
+		exBack := generic.NewExchange(&gg.w).Removes(generic.T[GY]()).WithRelation(generic.T[GRel]())
+		fgy := ecs.All(gg.rel, gg.y)
+		fcy := ecs.All(gc.rel, gc.y)
+		ng = exBack.ExchangeBatch(fgy)
+		nc = gc.w.Batch().Exchange(fcy, nil, []ecs.ID{gc.y})
+		if ng != nc || gdump(gg) != gdump(gc) {
+			return fmt.Errorf("Exchange.WithRelation(Rel).Removes(Y).ExchangeBatch(filter) without a target differs from Batch.Exchange (counts %d / %d)", ng, nc)
+		}
+	}
 	// SetRelation through Map[T]
 	mr := generic.NewMap[GRel](&gg.w)
 	es := gg.w.VerifAliveEntities()
